@@ -20,7 +20,7 @@ RULE = ('files of every length 0..N (and lengths around the 1 MiB streaming buff
         'mtime in the three HTTP date formats, garbage and "; length=" suffixes x GET and HEAD, served through Ombott.__call__. '
         'Non-trivial = a Range or If-Modified-Since header is present; distinct = distinct (length, method, Range, IMS class).')
 PYOPT = {'quick': 1, 'thorough': 1}     # one unit of every kind is also served by an interpreter started with -O (assert statements compiled out)
-REQUIRED = ['units_run_under_python_-O', 'server_zone_not_utc', 'big_file_with_server_file_wrapper', 'mtime_with_subsecond_part', 'ranges_crossing_a_buffer_boundary_before_eof', 'status_206', 'status_416', 'status_200', 'status_304', 'head_compared', 'slice_compared', 'grammar_satisfiable',
+REQUIRED = ['units_run_under_python_-O', 'files_modified_at_or_before_the_epoch', 'server_zone_not_utc', 'big_file_with_server_file_wrapper', 'mtime_with_subsecond_part', 'ranges_crossing_a_buffer_boundary_before_eof', 'status_206', 'status_416', 'status_200', 'status_304', 'head_compared', 'slice_compared', 'grammar_satisfiable',
             'grammar_unsatisfiable', 'near_miss', 'multi_range', 'suffix_range', 'open_range', 'clipped_end', 'ims_equal', 'ims_before', 'ims_after']
 EXHAUSTIVE = {'quick': False, 'thorough': False,
               'quick_note': 'complete for lengths 0..12 x all single ranges with bounds in -1..len+2',
@@ -80,7 +80,7 @@ def file_content(n):
 
 
 class Site:
-    def __init__(self, fracs=(0, 500_000_000, 1_000, 999_999_000)):
+    def __init__(self, fracs=(0, 500_000_000, 1_000, 999_999_000), mtime=None):
         import ombott
         from ombott.static_stream import static_file
         import mimetypes
@@ -112,6 +112,7 @@ class Site:
         self.app.route('/twice/<name>', ['GET', 'HEAD'], twice)
         self.files = {}
         self.fracs = fracs
+        self.mtime = MTIME if mtime is None else mtime
 
     def file(self, n):
         if n not in self.files:
@@ -121,7 +122,7 @@ class Site:
                 f.write(data)
             # HTTP dates have one-second resolution; file systems do not: give the files sub-second modification times
             frac = self.fracs[len(self.files) % len(self.fracs)]
-            os.utime(p, ns=(MTIME * 10**9 + frac, MTIME * 10**9 + frac))
+            os.utime(p, ns=(self.mtime * 10**9 + frac, self.mtime * 10**9 + frac))
             self.files[n] = data
         return f'f{n}.bin', self.files[n]
 
@@ -388,6 +389,11 @@ def cond_unit(ctx, unit):
             for frac in ((0, 500_000_000, 1_000, 999_999_000) if zi == 0 else ((0, 999_999_000)[zi % 2],)):
                 ctx.count('mtime_with_subsecond_part' if frac else 'mtime_on_a_whole_second')
                 _cond_site(ctx, unit, Site(fracs=(frac,)), zone)
+            if zi == 0:
+                # files stamped with the epoch or earlier (reproducible builds, image layers): the date 0 is a date like any other
+                for mt in (0, -86400, 1, 86400 * 366):
+                    ctx.count('files_modified_at_or_before_the_epoch' if mt <= 0 else 'files_modified_shortly_after_the_epoch')
+                    _cond_site(ctx, {'lens': unit['lens'][:2]}, Site(fracs=(0,), mtime=mt), zone)
     finally:
         if old is None:
             os.environ.pop('TZ', None)
@@ -400,7 +406,9 @@ def _cond_site(ctx, unit, site, zone='UTC'):
     try:
         for n in unit['lens']:
             for delta, cname in [(-86400 * 400, 'ims_before'), (-1, 'ims_before'), (0, 'ims_equal'), (1, 'ims_after'), (86400 * 365, 'ims_after')]:
-                for fi, d in enumerate(http_dates(MTIME + delta)):
+                for fi, d in enumerate(http_dates(site.mtime + delta)):
+                    if fi == 1 and site.mtime < 10**9:
+                        continue        # two-digit years are ambiguous around 1970
                     for suffix in ['', '; length=%d' % n]:
                         ims = d + suffix
                         exp304 = delta >= 0
